@@ -99,6 +99,21 @@ Proof.
                 ex_acyclic (2, 1) 2%nat); [reflexivity | cbn; lia].
 Qed.
 
+(* ---- an edge whose relation does not map the read row back to the reader --------------------------
+   usertypes.ReferenceList.do_convert flattens a list of RecordSets with `rec.id`; those records carry the
+   BARE ReferenceRelation of their column (node 7), not its composition with the relation through which
+   the reader (row 1 of node 2, via lookup map 20) obtained them.  Target row 9 is referred to by row 5 of
+   the referring table: the bare relation maps 9 to row 5, not to the reader's row 1; the composed relation
+   that field access records does map it back. *)
+Definition fl_R : relst :=
+  mkR (fun c t => if Z.eqb c 7 && Z.eqb t 9 then [5] else [])
+      (fun m n => if Z.eqb m 20 && Z.eqb n 2 then [(1, 77)] else [])
+      (fun m t => if Z.eqb m 20 && Z.eqb t 5 then [77] else []).
+
+Lemma flatten_edge_not_covering :
+  covers fl_R (RRef 7) 9 1 = false /\ covers fl_R (RComp (RLook 20 2) (RRef 7)) 9 1 = true.
+Proof. split; reflexivity. Qed.
+
 (* ---- without acyclicity the statement is false -------------------------------------------- *)
 (* "formula values are a function of formulas and data": the property as worded, for all programs *)
 Definition full_statement : Prop :=
